@@ -32,17 +32,28 @@ def _call(f, *a, **kw):
         return ('exc', type(e).__name__, str(e)[:200])
 
 
+# custom priority_key functions (constructor argument): the key receives the priority exactly as passed to add(), None included
+PKEYS = {
+    'default': None,
+    'none_last': lambda p: float('inf') if p is None else -float(p),
+    'none_first': lambda p: float('-inf') if p is None else -float(p),
+    'ascending': lambda p: float(p or 0) + (0.5 if p is None else 0.0),
+}
+BAD_PRIORITY = 10 ** 400        # float() of it raises OverflowError with every key above: add() must fail without changing anything
+
+
 def eff(p):
     return -float(p or 0)
 
 
 class RefPQ:
-    def __init__(self):
+    def __init__(self, pkey=None):
         self.live = {}      # task -> (eff prio, counter)
         self.n = 0
+        self.pkey = pkey or eff
 
     def add(self, task, p):
-        self.live[task] = (eff(p), self.n)
+        self.live[task] = (self.pkey(p), self.n)
         self.n += 1
 
     def remove(self, task):
@@ -92,6 +103,7 @@ def _pq_op(bulk_sizes):
     return st.one_of(
         st.tuples(st.just('add'), _t, _p), st.tuples(st.just('add'), _t, _p), st.tuples(st.just('add'), _t, _p),
         st.tuples(st.just('add_default'), _t),
+        st.tuples(st.just('add_bad'), _t),
         st.tuples(st.just('remove'), _t),
         st.tuples(st.just('pop'), _dflt), st.tuples(st.just('pop'), _dflt),
         st.tuples(st.just('peek'), _dflt),
@@ -104,6 +116,7 @@ def strat_pq(tier):
     return st.fixed_dictionaries({
         'sub': st.just('pq'),
         'factor': st.sampled_from([2, 2, 2, 3, 1]),
+        'pkey': st.sampled_from(['default', 'default', 'default', 'none_last', 'none_first', 'ascending']),
         'ops': st.lists(_pq_op(st.integers(1, 40)), max_size=40 if tier == 'quick' else 60),
     })
 
@@ -131,8 +144,12 @@ def _bulk_prios(n, pattern, table):
 
 def _run_history(case, out, factor, first=None, drain_limit=None):
     with scaled_factor(factor) as sf:
-        qs = [('heap', HeapPriorityQueue()), ('sorted', SortedPriorityQueue())]
-        ref = RefPQ()
+        pkey = PKEYS[case.get('pkey', 'default')]
+        kw = {'priority_key': pkey} if pkey is not None else {}
+        qs = [('heap', HeapPriorityQueue(**kw)), ('sorted', SortedPriorityQueue(**kw))]
+        ref = RefPQ(pkey)
+        if pkey is not None:
+            out.label('custom_priority_key')
         bulk_id = [0]
         tie_pop = [False]
         readd = [False]
@@ -175,6 +192,17 @@ def _run_history(case, out, factor, first=None, drain_limit=None):
             if name == 'add':
                 if not do_add(T(op[1]), PRIOS[op[2]]):
                     return None
+            elif name == 'add_bad':
+                # a priority the key function rejects: the exception reaches the caller and the queue is exactly as before,
+                # also when the task is already queued
+                task = T(op[1])
+                for nm, q in qs:
+                    r = _call(q.add, task, BAD_PRIORITY)
+                    if r[0] != 'exc' or r[1] != 'OverflowError':
+                        fail('add', '%s: %s.add(%r, 10**400) -> %r, expected the OverflowError of the priority key' % (where, nm, task, r))
+                        return None
+                if task in ref.live:
+                    readd[0] = True
             elif name == 'add_default':
                 task = T(op[1])
                 if task in ref.live:
